@@ -11,6 +11,51 @@ import mir  # noqa: E402
 from common import Report  # noqa: E402
 
 
+def thorough_mutants(pid, rep):
+    """Thorough tier: re-run this property's check on scratch copies of /repo with each kept
+    regression for this property applied (seeded/<pid>-*/patch.diff from independent sub-agents and
+    selftest/<pid>-*.patch).  The verdicts are appended to the evidence file; a regression that is
+    expected to be detected but is not makes the run a checker failure (exit 2), never a VIOLATION."""
+    import glob
+    import json
+    import subprocess
+    V = facts.VERIF
+    items = []
+    for d in sorted(glob.glob(os.path.join(V, "seeded", pid + "-*"))):
+        if os.path.isfile(os.path.join(d, "patch.diff")):
+            exp = "detect"
+            ef = os.path.join(d, "expect")
+            if os.path.isfile(ef):
+                exp = open(ef).read().split()[0]
+            items.append((os.path.basename(d), os.path.join(d, "patch.diff"), exp))
+    for f in sorted(glob.glob(os.path.join(V, "selftest", pid + "-*.patch"))):
+        items.append((os.path.basename(f)[:-6], f, "detect"))
+    res = []
+    bad = 0
+    for (name, patch, exp) in items:
+        r = subprocess.run([os.path.join(V, "tools", "try_patch.sh"), patch, pid], stdout=subprocess.PIPE, stderr=subprocess.STDOUT, text=True)
+        det = "VIOLATION property=%s" % pid in r.stdout
+        err = "CHECKER-ERROR" in r.stdout
+        verdict = "detected" if det else ("checker-error" if err else "missed")
+        res.append({"change": name, "expected": exp, "verdict": verdict})
+        print("%s thorough: regression %-40s expected=%-6s %s" % (pid, name, exp, verdict))
+        if exp == "detect" and not det:
+            bad += 1
+    evp = os.path.join(os.environ.get("VERIF_EVIDENCE_DIR") or os.path.join(V, "evidence"), pid + ".json")
+    try:
+        ev = json.load(open(evp))
+        ev["coverage"]["regressions_replayed"] = res
+        ev["coverage"]["evaluations"] += len(res)
+        ev["wall_s"] = round(ev.get("wall_s", 0) + 0.0, 2)
+        json.dump(ev, open(evp, "w"), indent=1)
+    except Exception as e:  # evidence must stay valid
+        print("%s thorough: could not extend evidence: %s" % (pid, e))
+    if bad:
+        print("CHECKER-ERROR property=%s reason=%d regression(s) that this check is expected to detect were not detected" % (pid, bad))
+        return 2
+    return 0
+
+
 def main(argv):
     if not argv:
         print(__doc__ or "usage: check <Cxx> [--tier quick|thorough] [--replay path]")
@@ -62,6 +107,8 @@ def main(argv):
         print("%s facts: %s, tree %s, %s (%.1f s), bodies %d" % (
             pid, f.meta["profile"], f.meta["tree_sha256"][:12], f.meta["facts"], f.meta["extract_s"], len(f.bodies)))
         rc = mod.run(prog, rep, tier)
+        if tier == "thorough" and rc == 0 and not replay and os.environ.get("VERIF_REPO") is None:
+            rc = thorough_mutants(pid, rep) or rc
         if replay:
             import json
             want = json.load(open(replay)).get("key")
